@@ -7,7 +7,7 @@
 #   ./mutrig.sh reset                reset the worktree to /repo's HEAD
 #   ./mutrig.sh check <Cxx> [args]   run ./check in the rig (builds against /tmp/mut/repo)
 set -e
-RIG=/tmp/mut
+RIG=${RIG:-/tmp/mut}
 case "$1" in
   sync)
     mkdir -p $RIG/verif
